@@ -18,6 +18,7 @@ N3  `x = []` ; `for T in IT: x.append(E)`  ->  `x = [E for T in IT]`   (the loop
 N4  `A[k] = A[k] + e`  ->  `A[k] += e`   (read-modify-write of one array cell; never for plain names, where the two differ).
 N5  `if c: r = A` / `else: r = B` ; `return r`  ->  `return A` / `return B`   (one result variable returned at the end of the function).
 N6  `r = f(..); a = r[0]; b = r[1]`  ->  `a, b = f(..)`   (a tuple result kept whole and only indexed).
+N6b `for item in IT: .. item[0] .. item[1]`  ->  `for (a, b) in IT: ..`   (a loop variable that is only indexed).
 N7  `0 > k`  ->  `k < 0`   (numeric constant moved to the right-hand side of a single comparison).
 N8  `if a:` / `    if b: S`  ->  `if a and b: S`   (nested ifs without else arms).
 N9  `for i in range(len(A)): x = A[i]; y = B[i]; ..`  ->  `for x, y in zip(A, B): ..` (with enumerate when i is used otherwise);
@@ -827,6 +828,36 @@ def _index_loops_to_iteration(tree: ast.Module, only_plain_python: bool = True) 
             ast.fix_missing_locations(loop)
 
 
+def _indexed_loop_target_to_unpacking(tree: ast.Module) -> None:
+    """`for item in IT: .. item[0] .. item[1] ..`  ->  `for (item__0, item__1) in IT: ..`  when the loop variable is only ever
+    indexed by the constants 0..k-1 (k >= 2) inside the loop and is not used after it"""
+    for fn in ast.walk(tree):
+        if not isinstance(fn, ast.FunctionDef):
+            continue
+        for loop in [n for n in ast.walk(fn) if isinstance(n, ast.For) and isinstance(n.target, ast.Name)]:
+            r = loop.target.id
+            inside = [n for st in loop.body for n in ast.walk(st)]
+            loads = [n for n in inside if isinstance(n, ast.Name) and n.id == r and isinstance(n.ctx, ast.Load)]
+            subs = [n for n in inside if isinstance(n, ast.Subscript) and isinstance(n.value, ast.Name) and n.value.id == r
+                    and isinstance(n.ctx, ast.Load) and isinstance(n.slice, ast.Constant) and isinstance(n.slice.value, int)]
+            if not loads or len(loads) != len(subs):
+                continue
+            idxs = sorted({n.slice.value for n in subs})
+            if idxs != list(range(len(idxs))) or len(idxs) < 2:
+                continue
+            if any(isinstance(n, ast.Name) and n.id == r and n not in loads and n is not loop.target for n in ast.walk(fn)):
+                continue
+
+            class Sub(ast.NodeTransformer):
+                def visit_Subscript(self, n):
+                    if any(n is x for x in subs):
+                        return ast.copy_location(ast.Name(id=f"{r}__{n.slice.value}", ctx=ast.Load()), n)
+                    return self.generic_visit(n)
+            loop.body = [Sub().visit(st) for st in loop.body]
+            loop.target = ast.Tuple(elts=[ast.Name(id=f"{r}__{j}", ctx=ast.Store()) for j in idxs], ctx=ast.Store())
+            ast.fix_missing_locations(loop)
+
+
 class _MergeNestedIfs(ast.NodeTransformer):
     """`if a:` containing only `if b: S` (neither with an else)  ->  `if a and b: S`"""
     def visit_If(self, node: ast.If):
@@ -850,6 +881,7 @@ def normalise(tree: ast.Module, modname: str) -> List[str]:
     _CellAugAssign().visit(tree)
     _result_variable_to_returns(tree)
     _indexed_result_to_unpacking(tree)
+    _indexed_loop_target_to_unpacking(tree)
     _ConstantOnTheRight().visit(tree)
     _MergeNestedIfs().visit(tree)
     ast.fix_missing_locations(tree)
